@@ -88,6 +88,8 @@ def run_parity(rec, S):
 def run_number_equality(rec, F, which):
     """F is the fact base of the configuration in which representation `which` is compiled"""
     R = rec.rule("F10.eq", "in each representation PartialEq and Hash for Value treat numbers as f64 (IEEE: 0 == -0, NaN != NaN), not as raw bits")
+    if which == "unboxed" and F.cfg == "nan_boxing":
+        which = "boxed"   # the thorough tier re-runs a property's rules on the nan_boxing build
     eq = F.fn("<laythe_core::value::%s::Value as core::cmp::PartialEq>::eq" % which)
     if eq is None:
         rec.anchor_lost("F10.eq", "PartialEq::eq for %s::Value" % which)
